@@ -323,6 +323,7 @@ def _exec_a(plan):
         ref = _outcomes(dec, lambda: open_kind('bytes', b), spec, kw, nmax)
         trace.append(['ref', ref[0][0], ref[1][2], len(b)])
         for kind in kinds:
+            streams.reset_drop_events()
             got = _outcomes(dec, lambda: open_kind(kind, b), spec, kw, nmax)
             trace.append(['kind', kind, got[0][0], got[1][2]])
             ctr['kind.%s' % kind] = ctr.get('kind.%s' % kind, 0) + 1
